@@ -262,13 +262,17 @@ def handle_refuted(run, prop, per_fn, name, bad, baseline, known):
     """A named obligation has a satisfiable negation on some path: build a replay and classify."""
     r = bad[0]
     obl = r.obl
-    qual = obl.func
+    qual = obl.extra.get("vname") or obl.func
     ex = per_fn[qual][0] if qual in per_fn else None
     model = solve.model_for(obl, ex.axioms if ex else [], timeout_ms=run.timeout_ms) if ex else None
     inputs = None
     if model is not None and ex is not None:
         try:
             inputs = {k: extract(v, model) for k, v in ex.input_syms_for(qual).items()}
+            from .run import zval
+
+            inputs["__eval__"] = lambda e, model=model: zval(model, e)
+            inputs["__sym__"] = ex.input_syms_for(qual)
         except Exception as e:  # extraction problems never turn into violations
             inputs = {"__extract_error__": repr(e)}
     payload = {"property": run.pid, "obligation": name, "function": qual, "path": obl.path, "line": obl.line, "kind": obl.kind,
@@ -331,7 +335,7 @@ def plain(x):
     from .run import ModelFn
 
     if isinstance(x, dict):
-        return {k: plain(v) for k, v in x.items()}
+        return {k: plain(v) for k, v in x.items() if not str(k).startswith("__")}
     if isinstance(x, (list, tuple)):
         return [plain(v) for v in x]
     if isinstance(x, ModelFn):
